@@ -19,7 +19,56 @@ let segs toks =
   List.filter_map (fun t ->
     if String.length t >= 2 && (t.[0] = 'S' || t.[0] = 's') && t.[1] = ':' then
       Some (bytes_of_hex (String.sub t 2 (String.length t - 2))) else None) toks
+
+(* string_map / string_pool direct harness (harness/C02_smap.cpp): ops
+     a:<hexkey>:<hexvalue>  add      g:<hexkey>  get      c  clear      i  iterate begin()..end()      d  size,total,occupied
+     T  trace the pool (where each string was put, SPool.v padd)     p  pool state
+   keys and values are C strings: cut at the first NUL like the code does *)
+let rec cut0 = function [] -> [] | x :: t -> if int_of_n x = 0 then [] else x :: cut0 t
+let smap_case toks =
+  let m = ref (Some smap_empty) and hist = ref [] and out = Buffer.create 256 in
+  let pool = ref pool0 and trace = ref false in
+  let hshow ((i, off), _) = Printf.sprintf "%d.%d" (int_of_nat i) (int_of_n off) in
+  List.iter (fun t ->
+    match !m with
+    | None -> ()
+    | Some mm ->
+      if t = "c" then (m := Some (smap_clear mm); hist := SClear :: !hist; pool := pclear !pool)
+      else if t = "T" then trace := true
+      else if t = "p" then
+        Buffer.add_string out (Printf.sprintf "P%d,%d,%d " (List.length (!pool).pages) (int_of_nat (!pool).cur) (int_of_n (!pool).free))
+      else if t = "d" then
+        Buffer.add_string out (Printf.sprintf "D%d,%d,%d " (int_of_nat (cap mm)) (int_of_nat (total mm))
+          (List.length (List.filter (fun s -> s <> None) (slots mm))))
+      else if t = "i" then begin
+        Buffer.add_string out "I";
+        List.iter2 (fun p e -> match e with
+          | Some e -> Buffer.add_string out (Printf.sprintf "%d:%s=%s," (int_of_nat p) (hex_of_bytes e.ekey) (hex_of_bytes e.evalue))
+          | None -> Buffer.add_string out (Printf.sprintf "%d:EMPTY," (int_of_nat p))) (chain mm) (smap_iter mm);
+        Buffer.add_char out ' ' end
+      else match String.split_on_char ':' t with
+        | ["a"; k; v] ->
+            let k = cut0 (bytes_of_hex k) and v = cut0 (bytes_of_hex v) in
+            hist := SAdd (k, v) :: !hist;
+            let (hk, p1) = padd k !pool in
+            let (hv, p2) = padd v p1 in
+            pool := p2;
+            if !trace then Buffer.add_string out ("@" ^ hshow hk ^ "/" ^ hshow hv ^ " ");
+            (match smap_add mm k v with
+             | Some m2 -> m := Some m2
+             | None -> m := None; Buffer.add_string out "HANG")
+        | ["g"; k] ->
+            let k = cut0 (bytes_of_hex k) in
+            let r = smap_get mm k in
+            (* the closed form proved equal to smap_get (smap_get_spec) is evaluated alongside: a disagreement is printed *)
+            let show = function GFound v -> "=" ^ hex_of_bytes v | GAbsent -> "~" | GHang -> "HANG" in
+            let r2 = spec_get (List.rev !hist) k in
+            Buffer.add_string out (show r ^ (if r2 <> r then "!SPEC" ^ show r2 else "") ^ " ");
+            if r = GHang then m := None
+        | _ -> Buffer.add_string out "BAD-OP ") toks;
+  String.trim (Buffer.contents out)
 let () = main_loop (function
+  | "smap" :: toks -> smap_case toks
   | "http" :: toks -> show (http_run (segs toks))
   | "scgi" :: toks -> show (scgi_run (List.concat (segs toks)))
   | "fcgi" :: toks -> show (fcgi_run (List.concat (segs toks)))
